@@ -38,7 +38,7 @@ PROPS_FILE = "MpfVerif/Props/C04.lean"
 GEN = []
 MANIFEST = {
     "text": "PARTIAL proof. Proved in Lean about the ball ledger (Model/BallLedger.lean: the bookkeeping protocol of MPF's ball devices at the granularity of its own accounting events - plan, ejectStart, ballLeft, confirm/lateConfirm, ejectFailedReturn/Stuck, enterExpected/Unexpected, pfCapture, lostEjected, lostIdle, incomingTimeout, newBallFound, broken - with the code's guards): for every interleaving of these transitions the available_balls claims sum to the number of balls known, device balls + playfield balls + balls in flight sum to the number known, 0 <= balls <= counted <= capacity for every device, and for every configuration in which every device target has a single source (decidable predicate Cfg.singleSource) no reachable state enables a coil firing towards a device whose room is already taken (invariant heading = incoming + [source mid-fire] carried through all 23 transitions); with two sources the guard passes twice (witness theorem = known finding D16). NOT proved: that the ~2000 lines of asyncio coroutines only perform these transitions. That is tied by a refinement monitor on every run: the real devices run inside a physical-world simulator (slots, switches through process_switch, coil pulses intercepted, transit/settle times, eject outcomes ok/stuck/fallback/late/astray), every observed step must be an enabled ledger transition with the same resulting counts, and at every rest point the real counts are compared with the simulator's physical truth.",
-    "note": "Outside the model (named runtime behaviour): asyncio task interleaving inside one device, switch debounce and activity classification in switch_counter._run, timer expiry (the monitor is told which timeout fired), real switch bounce, jam switches, entrance-switch counters, mechanical/player-controlled ejects, ball search, confirm_eject_type switch/event. Topologies: trough->plunger->playfield + lock->playfield, and trough+lock->plunger (two sources). Trusted: Lean kernel + standard axioms; the hand-written ledger; harness/common/ballworld.py (world simulator + trace abstraction). Known findings, each with a deterministic witness history that runs on every check: two sources, one free slot (D16); ball falling back after eject_timeout; ball arriving after ball_missing_timeout; ball entering a device during its own eject taken for the returning ball; playfield switch hit by another ball credited to an eject whose ball falls back; BallDevice.balls reading -1 between end_eject and the state change.",
+    "note": "Outside the model (named runtime behaviour): asyncio task interleaving inside one device, switch debounce and activity classification in switch_counter._run, timer expiry (the monitor is told which timeout fired), real switch bounce, jam switches, entrance-switch counters, mechanical/player-controlled ejects, ball search, confirm_eject_type switch/event. Topologies: trough->plunger->playfield + lock->playfield; trough+lock->plunger (two sources); chain trough->launcher->{playfield|lock} with two-hop requests to the non-playfield target (the launcher's diverter follows the target of MPF's own ejecting_ball event, as a diverter coil wired to that event would - the only place where the world listens to MPF). Trusted: Lean kernel + standard axioms; the hand-written ledger; harness/common/ballworld.py (world simulator + trace abstraction). Known findings, each with a deterministic witness history that runs on every check: two sources, one free slot (D16); ball falling back after eject_timeout; ball arriving after ball_missing_timeout; ball entering a device during its own eject taken for the returning ball; playfield switch hit by another ball credited to an eject whose ball falls back; BallDevice.balls reading -1 between end_eject and the state change.",
     "technique": "Lean theorems by induction over transition lists of a hand-written protocol model + runtime refinement monitor and physical-truth oracle on the real devices",
     "translated": False,
 }
